@@ -678,6 +678,10 @@ func (a Int) M__round__(digits Object) (Object, error) {
 		r -= digits
 		// Round half to even
 		if 2*digits > scale || (2*digits == scale && (r/scale)%2 != 0) {
+			if r > IntMax-scale {
+				// the rounded value doesn't fit an Int
+				return (*BigInt)(big.NewInt(int64(a))).M__round__(b)
+			}
 			r += scale
 		}
 		if negative {
